@@ -26,12 +26,24 @@ namespace sim
       IO_FILE = 27,      // file_input( path )
       IO_CSTREAM = 28,   // cstream_input over a fopencookie FILE*
       IO_ISTREAM = 29,   // istream_input over a simulated streambuf
-      IO_LAST = 29
+      IO_BUF_CR = 30,    // buffer_input< sim_reader, eol::cr, ..., 4 >   (reference: memory_input with the same policy)
+      IO_BUF_CRLF = 31,
+      IO_BUF_CR_CRLF = 32,
+      IO_BUF_LF = 33,
+      IO_MEM_CR = 34,    // references of 30..33
+      IO_MEM_CRLF = 35,
+      IO_MEM_CR_CRLF = 36,
+      IO_MEM_LF = 37,
+      IO_LAST = 37
    };
 
-   constexpr int IO_PROGS = 2;  // 1 = JSON text, 2 = line-oriented statement grammar
+   constexpr int IO_PROGS = 5;  // 1 JSON text, 2 line-oriented statements, 3 unsigned / 4 signed integer rules with actions, 5 HTTP chunked body
 
    RunResult run_io( int io_class, const Case& c );
+   inline int io_reference_of( int io_class )
+   {
+      return ( io_class >= IO_BUF_CR && io_class <= IO_BUF_LF ) ? io_class + 4 : IO_MEM;
+   }
 
    // environment
    std::FILE* make_cookie_file( bool seekable );  // reads W.xdata / W.xlen per the plan in W.reads / W.faults
